@@ -12,6 +12,7 @@ sys.path.insert(0, os.path.dirname(os.path.dirname(os.path.abspath(__file__))))
 import common
 import scan_real as sr
 import scan_streams
+import tree_stream
 from gen import programs
 from props import C15
 
@@ -78,10 +79,22 @@ def correspond(ctx):
         got = [(n, ln) for (n, _, _, _, _, ln) in d[0]] if d else None
         if got != want:
             fails.append({"input": {"language": lang, "code": code}, "observed": got, "required": want})
+    # program forests of the Lean type `Prog PTok`: the expectation is the TREE report computed by the
+    # model driver (`Props/C01tree.lean`, `C01text.lean`: for every forest satisfying the decidable
+    # hypotheses that the driver evaluates, text -> lex -> scan_file gives exactly that report)
+    tr = tree_stream.correspond(ctx.rng("trees"), ctx.pick(600, 6000), sweep_upto=ctx.pick(0, 40))
+    for key in ("lexer_mismatch", "generator_bug", "model_errors"):
+        for x in tr[key][:10]:
+            dis.append({"stream": "tree/%s" % key, "input": x.get("input"), "model": str(x.get("forest") or x.get("why") or x.get("model"))[:300],
+                        "impl": str(x.get("real", ""))[:300]})
+    fails += tr["oracle_failures"][:20]
+    fails += tree_stream.regressions()
+    dist["trees"] = dict(tr["distribution"], **tr["counts"])
+    nontrivial |= {("tree",) + tuple(x) for x in []}
     return {
-        "evaluations": len(allc), "distinct_nontrivial": len(nontrivial),
-        "rule": "canonical-fragment programs from the per-language grammar (functions, methods, classes, global code, nesting, control blocks, callbacks, initialisers, comments and blank lines anywhere, string literals with delimiters, multi-line headers, both brace styles, brace groups in parameters, async, decorators, docstrings) + exhaustive body-length sweep 1..75 per language; three-way: real = model = per-token expectation; non-trivial = distinct programs with at least one expected function",
-        "samples": [{"language": l, "code": c[:200], "expected": e} for (l, c, e) in cases[:2]],
+        "evaluations": len(allc) + tr["evaluations"], "distinct_nontrivial": len(nontrivial) + tr["distinct_nontrivial"],
+        "rule": "canonical-fragment programs from the per-language grammar (functions, methods, classes, global code, nesting, control blocks, callbacks, initialisers, comments and blank lines anywhere, string literals with delimiters, multi-line headers, both brace styles, brace groups in parameters, async, decorators, docstrings) + exhaustive body-length sweep 1..75 per language; three-way: real = model = per-token expectation; non-trivial = distinct programs with at least one expected function. PLUS " + tr["rule"],
+        "samples": [{"language": l, "code": c[:200], "expected": e} for (l, c, e) in cases[:2]] + tr["samples"][:1],
         "exhaustive": False, "distribution": dist,
         "disagreements": dis[:50], "oracle_failures": fails[:50],
         "generated_hashes": {"Gen/Languages.lean": C15._sha(os.path.join(common.LEAN, "CodeLimit", "Gen", "Languages.lean"))},
@@ -119,6 +132,8 @@ def search(ctx, hints):
         got = [(n, ln) for (n, _, _, _, _, ln) in d[0]] if d else None
         if got != want:
             fails.append({"input": {"language": lang, "code": code}, "observed": got, "required": want})
+    tr = tree_stream.correspond(ctx.rng("treesearch"), 900, sweep_upto=20)
+    fails += tr["oracle_failures"] + tree_stream.regressions()
     fails.sort(key=lambda f: len(f["input"]["code"]))
     return fails[:10]
 
